@@ -382,6 +382,8 @@ def hitmiss(input, Bc, out=None, output=None):
     else:
         if out.shape != input.shape:
             raise ValueError('mahotas.hitmiss: out must be of same shape as input')
+        if not out.flags.c_contiguous:
+            raise ValueError('mahotas.hitmiss: out must be C-contiguous')
         if out.dtype != input.dtype:
             if out.dtype == np.bool_ and input.dtype == np.uint8:
                 out = out.view(np.uint8)
